@@ -418,7 +418,7 @@ class HLQuadraticCost():
       return 0
     b = p_l
     a = (p_h - p_l)/2
-    c = a*(-b/(2*a))**2 + b*(-b/(2*a))
+    c = a*(-b/(2*a))**2 + b*(-b/(2*a)) if a != 0 else 0
     return (x_h - x_l)*np.poly1d([a, b, 0])((x - x_l)/(x_h - x_l)) - c*(x_h - x_l)
 
   @staticmethod
